@@ -247,7 +247,7 @@ def finish(mod, tier, seed, acc, nshards, wall, replay_dir):
         'wall_s': round(wall, 3),
         'violations': len(new),
     }
-    evdir = os.path.join(VERIF, 'evidence')
+    evdir = os.environ.get('VERIF_EVIDENCE_DIR') or os.path.join(VERIF, 'evidence')   # scratch dir for runs against seeded trees
     os.makedirs(evdir, exist_ok=True)
     tmp = os.path.join(evdir, f'.{pid}.json.tmp')
     with open(tmp, 'w') as fh:
